@@ -154,6 +154,34 @@ def thread_local_classes():
   return sorted(out)
 
 
+def path_part_alternatives():
+  """The alternatives joined into `daglish_extensions._PATH_PART` (the path grammar of C18)."""
+  v = _find_assign(_parse('fiddle/_src/daglish_extensions.py'), '_PATH_PART')
+  out = []
+  if v is not None:
+    for n in ast.walk(v):
+      if isinstance(n, ast.List):
+        out = [e.value for e in n.elts if isinstance(e, ast.Constant) and isinstance(e.value, str)]
+        break
+  return out or ['<unparsed>']
+
+
+def set_value_split():
+  """How `absl_flags.utils.set_value` cuts `path=value`: [method, separator, maxsplit]."""
+  tree = _parse('fiddle/_src/absl_flags/utils.py')
+  for fn in ast.walk(tree):
+    if isinstance(fn, ast.FunctionDef) and fn.name == 'set_value':
+      for n in ast.walk(fn):
+        if (isinstance(n, ast.Call) and isinstance(n.func, ast.Attribute)
+            and isinstance(n.func.value, ast.Name) and n.func.value.id == 'assignment'):
+          args = [a.value for a in n.args if isinstance(a, ast.Constant)]
+          kws = {k.arg: k.value.value for k in n.keywords if isinstance(k.value, ast.Constant)}
+          sep = args[0] if args else kws.get('sep')
+          maxsplit = args[1] if len(args) > 1 else kws.get('maxsplit')
+          return [n.func.attr, str(sep), str(maxsplit)]
+  return ['<unparsed>']
+
+
 def render() -> str:
   parts = [
       '/-',
@@ -182,6 +210,12 @@ def render() -> str:
       '',
       '/-- classes deriving `threading.local` in the C19 files -/',
       f'def threadLocalState : List String := {_lean_str_list(thread_local_classes())}',
+      '',
+      '/-- the alternatives of `daglish_extensions._PATH_PART` -/',
+      f'def pathPartAlternatives : List String := {_lean_str_list(path_part_alternatives())}',
+      '',
+      '/-- `set_value`: method, separator and maxsplit of the call that cuts `path=value` -/',
+      f'def setValueSplit : List String := {_lean_str_list(set_value_split())}',
       '',
       'end Fiddle.Tables',
       '',
